@@ -1,5 +1,7 @@
 import Juniper.Model.XSlices
 import Juniper.Spec.Seq
+import Juniper.Proofs.HelpersWrappers
+import Juniper.Proofs.HelpersLoops
 /-! # xslices counterparts (C07 cross-version agreement): the Go loops compute the Spec functions -/
 namespace Juniper.Proofs.XS
 open Juniper.Model Juniper.Spec Juniper.Gen.Comb
@@ -234,28 +236,67 @@ theorem compactGo_congr (eq : α → α → Bool) (h : Seq.Equiv eq) (a b : α) 
     · exact ih
     · rfl
 
+/-! ## the wrappers / own loops shared with C19: `XSlices.*` are the C19 models on a slice with `cap = len` -/
+
+open Juniper.Model.Stdlib (Sl) in
+theorem items_ofList (l : List α) : (Sl.ofList l).items = l := by
+  simp [Sl.ofList, Sl.items]
+
+/-- `xslices.CompactFunc` = `slices.CompactFunc(slices.Clone(s), eq)` keeps an item iff it is the first
+one or is not `eq` to its *predecessor* -/
+theorem compactFunc_items (zero : α) (eq : α → α → Bool) (l : List α) :
+    XSlices.compactFunc zero eq l = Stdlib.compactBy eq l := by
+  show (Stdlib.Sl.shrinkTo zero (Stdlib.clone (Stdlib.Sl.ofList l)) _).items = _
+  rw [Helpers.items_shrinkTo, Helpers.items_clone, items_ofList]
+
+theorem stdCompactGo_eq (eq : α → α → Bool) (h : Seq.Equiv eq) (p : α) (l : List α) :
+    Stdlib.compactGo eq p l = Seq.compactGo eq (some p) l := by
+  induction l generalizing p with
+  | nil => rfl
+  | cons y l ih =>
+    simp only [Stdlib.compactGo, Seq.compactGo]
+    by_cases hyp : eq y p = true
+    · have hpy := h.symm y p hyp
+      simp only [hyp, hpy, if_true]
+      rw [ih y, compactGo_congr eq h y p hyp]
+    · have hpy : eq p y = false := by
+        cases hx : eq p y with
+        | false => rfl
+        | true => exact absurd (h.symm p y hx) hyp
+      simp only [hyp, hpy, Bool.false_eq_true, if_false]
+      rw [ih y]
+
 /-- `slices.CompactFunc` (compares neighbours) and the iterator's `CompactFunc` (compares with the
 last item kept) agree when `eq` is an equivalence. -/
-theorem compactFunc_cons (eq : α → α → Bool) (h : Seq.Equiv eq) (a : α) (l : List α) :
-    XSlices.compactFunc eq (a :: l) = a :: Seq.compactGo eq (some a) l := by
-  induction l generalizing a with
-  | nil => rfl
-  | cons b l ih =>
-    rw [XSlices.compactFunc, ih b]
-    by_cases hba : eq b a = true
-    · have hab := h.symm b a hba
-      simp only [hba, if_true, Seq.compactGo, hab]
-      rw [compactGo_congr eq h a b hab]
-    · have hab : eq a b = false := by
-        cases hx : eq a b with
-        | false => rfl
-        | true => exact absurd (h.symm a b hx) hba
-      simp only [hba, Bool.false_eq_true, if_false, Seq.compactGo, hab]
-
-theorem compactFunc_eq (eq : α → α → Bool) (h : Seq.Equiv eq) (l : List α) :
-    XSlices.compactFunc eq l = Seq.compact eq l := by
+theorem compactFunc_eq (zero : α) (eq : α → α → Bool) (h : Seq.Equiv eq) (l : List α) :
+    XSlices.compactFunc zero eq l = Seq.compact eq l := by
+  rw [compactFunc_items]
   cases l with
   | nil => rfl
-  | cons a l => rw [compactFunc_cons eq h]; rfl
+  | cons a l => simp only [Stdlib.compactBy, Seq.compact, Seq.compactGo]; rw [stdCompactGo_eq eq h]
+
+/-- `xslices.Compact` = `xslices.CompactFunc` with `==` -/
+theorem compact_items [DecidableEq α] (zero : α) (l : List α) :
+    XSlices.compact zero l = XSlices.compactFunc zero (fun a b => decide (a = b)) l := rfl
+
+/-- `xslices.Filter` = `slices.DeleteFunc(slices.Clone(s), !keep)` -/
+theorem filter_eq (zero : α) (keep : α → Bool) (l : List α) : XSlices.filter zero keep l = l.filter keep := by
+  show (Stdlib.Sl.shrinkTo zero (Stdlib.clone (Stdlib.Sl.ofList l)) _).items = _
+  rw [Helpers.items_shrinkTo, Helpers.items_clone, items_ofList]
+  simp
+
+theorem join_eq (zero : α) (ls : List (List α)) : XSlices.join zero ls = some ls.flatten := by
+  simp [XSlices.join, Helpers.join_eq]
+
+theorem map_eq (zero : β) (f : α → β) (l : List α) : XSlices.map zero f l = some (l.map f) := Helpers.map_eq zero f l
+
+theorem reduce_eq (zero : β) (f : β → α → β) (init : β) (l : List α) : XSlices.reduce zero f init l = l.foldl f init :=
+  Helpers.reduce_eq zero l init f
+
+theorem repeat_eq (zero a : α) (n : Int) :
+    XSlices.repeat_ zero a n = if n < 0 then none else some (List.replicate n.toNat a) := Helpers.repeatN_eq zero a n
+
+theorem equal_eq [DecidableEq α] (a b : List α) : XSlices.equal a b = decide (a = b) := by
+  simp [XSlices.equal, Helpers.equal, Gen.Helpers.equalW, Stdlib.equal, items_ofList]
 
 end Juniper.Proofs.XS
